@@ -8,6 +8,7 @@ CONSTANTS
   RF2 = 1
   Parts = {0}
   NoConf = NoConf
+  Merged = Merged
   Static = FALSE
   PubChoices <- MCDynPubs
 INVARIANT Inv
